@@ -4,6 +4,6 @@ tier=${1:-quick}
 cd /verif
 for p in $(python3 -c "import json;print(' '.join(c['property_id'] for c in json.load(open('MANIFEST.json'))['checks']))"); do
   s=$(date +%s)
-  out=$(./check.sh $p $tier 2>&1 | tail -3 | tr '\n' ' ')
-  echo "$p exit=$? $(( $(date +%s) - s ))s $out" | cut -c1-300
+  out=$(./check.sh $p $tier 2>&1); rc=$?
+  echo "$p exit=$rc $(( $(date +%s) - s ))s $(echo "$out" | tail -3 | tr '\n' ' ')" | cut -c1-300
 done
